@@ -411,6 +411,13 @@ func runC20(c *Ctx) {
 
 	// ---------- C20.d ----------
 	c.clause("C20.d", "T1", "label values that grow with the manifest are extended only after labels.Validate accepted the extended value", 2)
+	type labelAcc struct {
+		f    *ssa.Function
+		ph   *ssa.Phi
+		add  *ssa.BinOp
+		vals []ssa.CallInstruction
+	}
+	var accs []labelAcc
 	for _, f := range c.pkgFuncs(sp) {
 		eachInstr(f, func(i ssa.Instruction) {
 			b, ok := i.(*ssa.BinOp)
@@ -441,7 +448,150 @@ func runC20(c *Ctx) {
 			}
 			okp, _ := mustPass(f, b, newCuts().addEdges(se))
 			c.verdict(c.fnKey(f)+":validated-append", b.Pos(), okp && len(se) > 0, "value extended only after Validate(key, value+next) succeeded", "a label value grows without checking the size limit: Prepare fails for images with many layers/URLs")
+			accs = append(accs, labelAcc{f, ph, b, vals})
 		})
+	}
+
+	// ---------- C20.f ----------
+	c.clause("C20.f", "T1", "once labels.Validate rejects an element the accumulation stops: no later element is appended, so the stored list is a prefix of the input (and positions in it equal positions in the input)", 2)
+	for _, a := range accs {
+		cut := newCuts()
+		for _, p := range a.ph.Block().Preds {
+			if !a.ph.Block().Dominates(p) {
+				for si, s := range p.Succs {
+					if s == a.ph.Block() {
+						cut.edges[edge{p.Index, si}] = true
+					}
+				}
+			}
+		}
+		good := true
+		n := 0
+		for _, v := range a.vals {
+			vb, ok := stripConv(v.Common().Args[1]).(*ssa.BinOp)
+			if !ok || stripConv(vb.X) != ssa.Value(a.ph) {
+				continue
+			}
+			for _, er := range errResults(v) {
+				for _, e := range nonNilEdges(a.f, er) {
+					n++
+					// explore from the failure side of this branch
+					tgt := a.f.Blocks[e.from].Succs[e.succ]
+					first := tgt.Instrs[0]
+					if first == ssa.Instruction(a.add) {
+						good = false
+					} else if hit, _ := reach(a.f, first, isInstr(a.add), cut); hit != nil {
+						good = false
+					}
+				}
+			}
+		}
+		if n == 0 {
+			c.unk(c.fnKey(a.f)+":stop-at-limit", a.add.Pos(), "no failure branch of labels.Validate found for this accumulator")
+			continue
+		}
+		c.verdict(c.fnKey(a.f)+":stop-at-limit", a.add.Pos(), good, "after a rejected element the loop is left; nothing further is appended", "after labels.Validate rejects an element the loop continues and may append a later one: the list is no longer a prefix in manifest order and urls.<i> positions drift")
+	}
+
+	// ---------- C20.g ----------
+	c.clause("C20.g", "T5", "a label value is validated against the key it is stored under (the size limit counts key+value)", 4)
+	keyEq := func(x, y ssa.Value) bool {
+		if sx, ok := constString(x); ok {
+			sy, ok2 := constString(y)
+			return ok2 && sx == sy
+		}
+		return sameValue(x, y)
+	}
+	for _, a := range accs {
+		var derives func(v ssa.Value, d int) bool
+		derives = func(v ssa.Value, d int) bool {
+			if v == nil || d > 6 {
+				return false
+			}
+			v = stripConv(v)
+			if v == ssa.Value(a.ph) || v == ssa.Value(a.add) {
+				return true
+			}
+			switch x := v.(type) {
+			case *ssa.Call:
+				for _, arg := range x.Call.Args {
+					if derives(arg, d+1) {
+						return true
+					}
+				}
+			case *ssa.Phi:
+				for _, e := range x.Edges {
+					if derives(e, d+1) {
+						return true
+					}
+				}
+			}
+			return false
+		}
+		for _, v := range a.vals {
+			vb, ok := stripConv(v.Common().Args[1]).(*ssa.BinOp)
+			if !ok || stripConv(vb.X) != ssa.Value(a.ph) {
+				continue
+			}
+			key := stripConv(v.Common().Args[0])
+			if par, ok := key.(*ssa.Parameter); ok {
+				// helper: every caller stores the result under the key it passed
+				pi := -1
+				for i, p := range a.f.Params {
+					if p == par {
+						pi = i
+					}
+				}
+				sites := c.callSitesOf(func(_ string, call ssa.CallInstruction) bool { return staticFn(call) == a.f }, c.liveFuncs())
+				for _, cs := range sites {
+					cv, ok := cs.instr.(*ssa.Call)
+					if !ok || pi < 0 {
+						c.unk(c.fnKey(cs.caller)+":validated-key", cs.instr.Pos(), "result of the validated-append helper not used as a value")
+						continue
+					}
+					stored, good := 0, true
+					for _, r := range *cv.Referrers() {
+						if mu, ok := r.(*ssa.MapUpdate); ok && stripConv(mu.Value) == ssa.Value(cv) {
+							stored++
+							if !keyEq(mu.Key, cv.Call.Args[pi]) {
+								good = false
+							}
+						}
+					}
+					ks := "?"
+					if s, ok := constString(cv.Call.Args[pi]); ok {
+						ks = s
+					} else {
+						ks = "computed"
+					}
+					if stored == 0 {
+						c.unk(c.fnKey(cs.caller)+":validated-key:"+ks, cs.instr.Pos(), "result of the validated-append helper is not stored directly into a label map")
+						continue
+					}
+					c.verdict(c.fnKey(cs.caller)+":validated-key:"+ks, cs.instr.Pos(), good, "stored under the key the value was validated against", "the value is validated against one key and stored under another: a longer key makes key+value exceed containerd's label size limit")
+				}
+				continue
+			}
+			ks, isConst := constString(key)
+			if !isConst {
+				c.unk(c.fnKey(a.f)+":validated-key", v.Pos(), "validation key is neither a constant nor a parameter")
+				continue
+			}
+			stored, good := 0, true
+			eachInstr(a.f, func(i ssa.Instruction) {
+				if mu, ok := i.(*ssa.MapUpdate); ok && derives(mu.Value, 0) {
+					stored++
+					if !keyEq(key, mu.Key) {
+						good = false
+					}
+				}
+			})
+			if stored == 0 {
+				c.unk(c.fnKey(a.f)+":validated-key:"+ks, v.Pos(), "accumulated value is not stored into a label map in this function")
+				continue
+			}
+			c.verdict(c.fnKey(a.f)+":validated-key:"+ks, v.Pos(), good, "stored under the key the value was validated against", "the value is validated against one key and stored under another")
+		}
 	}
 
 	// ---------- C20.e ----------
